@@ -22,7 +22,7 @@ ASSUMPTIONS = ['"well conditioned" is made checkable as cond_2(A) <= 1e3 on the 
                'default nswp=22, kickrank=4, local_iterations=40, resets=2']
 REQUIRED_REACH = ['solvers:amen_solve', 'solvers:_amen_solve_python', '_iterative_solvers:gmres_restart', '_iterative_solvers:BiCGSTAB_reset', 'solvers:_LinearOp.apply_prec',
                   'solvers:_LinearOp.matvec', 'solvers:_local_product']
-REQUIRED_COUNTS = {'ran:gmres': 5, 'ran:bicgstab': 5, 'ran:direct': 5, 'ran:prec': 5, 'class:spd': 1, 'class:dd': 1, 'class:lap': 1, 'class:cd': 1, 'option:band_diagonal': 5, 'x0:user': 1, 'x0:degenerate': 4, 'executions': 150}
+REQUIRED_COUNTS = {'ran:gmres': 5, 'ran:bicgstab': 5, 'ran:direct': 5, 'ran:prec': 5, 'class:spd': 1, 'class:dd': 1, 'class:lap': 1, 'class:cd': 1, 'option:band_diagonal': 5, 'x0:user': 1, 'x0:near': 3, 'x0:degenerate': 4, 'executions': 150}
 LINE_FUNCS = ['_amen_solve_python', 'BiCGSTAB_reset', 'gmres', '_LinearOp.matvec']
 CASE_TIMEOUT = {'quick': 300, 'thorough': 600}
 MAX_TIMEOUT_FRACTION = 0.0
@@ -73,6 +73,11 @@ def cases(tier, seed):
             for (prec, max_full, ls) in confs[:3]:
                 c = dict(base)
                 c.update({'prec': prec, 'max_full': max_full, 'ls': ls, 'x0': 'exact', 'sidx': 0})
+                cs.append(c)
+            # ... or knows it almost: x0 = x_true + a relative perturbation between eps and sqrt(eps)
+            for (prec, max_full, ls) in confs[3:5]:
+                c = dict(base)
+                c.update({'prec': prec, 'max_full': max_full, 'ls': ls, 'x0': 'near', 'sidx': 0})
                 cs.append(c)
     # directed: larger Laplacians at tight eps with forced iterative local solves - local Krylov solves that need restarts
     big = [[12, 12, 12], [8, 12, 12]] if not T else [[12, 12, 12], [8, 12, 12], [12, 12, 6], [10, 12, 12], [6, 6, 6, 6]]
@@ -159,6 +164,12 @@ def run_case(case, ctx):
     if case['x0'] == 'exact':
         x0 = case['_xt']
         ctx.count('x0:exact')
+    if case['x0'] == 'near':
+        xt = case['_xt']
+        pert = gens.make_tt(N, [1] + [2] * (len(N) - 1) + [1], torch.float64, 'gauss', g)
+        rel = 10 ** (0.75 * math.log10(case['eps']))         # between eps and sqrt(eps)
+        x0 = ctx.call('TT+TT', lambda a, b: a + b * (rel * dn.fro(dn.D(a)) / max(dn.fro(dn.D(b)), 1e-300)), xt, pert)
+        ctx.count('x0:near')
     if case['x0'] == 'user':
         rr = random.Random(case['vseed'] + 5)
         x0 = gens.make_tt(N, [1] + [rr.randint(1, 3) for _ in N[1:]] + [1], torch.float64, 'gauss', g)
